@@ -1,18 +1,17 @@
 import Driver.Proto
-import PdtVerif.Model.OptCompletion
+import PdtVerif.Model.OptCompletionBatch
 /-! Driver for C03: optimal-completion targets and the hard OCD loss.
 
-`model` side: `targetsBatch` / `lossCells` (the algorithmic model the theorems are about).
-`oracle` side: for every valid prefix and every candidate token, the declarative test
-`min (DP column of p ++ [t]) = min (DP column of p)` with the TRUE costs on the CUT reference —
-it never looks at masks, sorting or scattering. -/
+`model` side: `optimalCompletionT` / `hardOCDLossT` — the batch-level model on the tensors in the
+layout of the call (`batch_first` is an input of the model, nothing is transposed by the harness).
+`oracle` side: `oracleAt` — for every prefix and every candidate token the declarative test
+`min (DP column of p ++ [t]) = min (DP column of p)` with the TRUE costs on the CUT reference; it
+never looks at masks, sorting or scattering. The reductions of the spec side are `lossSumSpec` /
+`lossMeanSpec` over `lossSpec` of the ORACLE sets.
+`verdict`: when the request carries the implementation's output tensor, every vector of it is
+judged here by `rowAgree` (against the model's vector) and `rowCheck` (against the oracle) — the two
+functions `C03_check_sound_complete` proves equivalent to the property's statement about a row. -/
 open Lean Proto PdtVerif.Lev PdtVerif.OptCompletion
-
-def dedupInts (l : List Int) : List Int :=
-  l.foldl (fun acc x => if acc.contains x then acc else acc ++ [x]) []
-
-/-- `best` evaluated through the shared sweep-form DP (`dpRow_eq`: equals `prefixDists`). -/
-def bestDP (c : Costs) (ref p : List Int) : Rat := listMin (dpRow c ref p)
 
 def parseCfg (c : Json) : Except String Cfg := do
   let eos ← getOptInt c "eos"
@@ -24,77 +23,111 @@ def parseCfg (c : Json) : Except String Cfg := do
   let pad ← getInt c "padding"
   pure { eos := eos, includeEos := ie, excludeLast := ex, costs := ⟨ins, del, sub⟩, padding := pad }
 
-/-- Valid prefix lengths of a column: `0..hypLen` (`0..hypLen-1` under exclude_last). -/
-def validPrefixes (excl : Bool) (hypLen : Nat) : List Nat :=
-  List.range (if excl then hypLen else hypLen + 1)
+def parseT2 (c : Json) (k : String) : Except String (Tens2 Int) := do
+  let o ← field c k
+  let sh ← getNatList o "shape"
+  let data ← getIntList o "data"
+  match sh with
+  | [a, b] => if data.length = a * b then pure ⟨a, b, data⟩ else throw s!"{k}: data does not fit the shape"
+  | _ => throw s!"{k}: expected a 2-d shape"
 
-/-- Oracle target sets of one column (candidate order, not sorted). -/
-def oracleCol (cfg : Cfg) (ref hyp : List Int) : List (List Int) × List Rat :=
-  let refLen := cutLen cfg.eos cfg.includeEos ref
-  let hypLen := cutLen cfg.eos cfg.includeEos hyp
-  let ref' := ref.take refLen
-  let fresh : Int := (ref ++ hyp).foldl (fun m x => max m (x + 1)) 0
-  let cands := dedupInts (ref ++ hyp ++ [fresh])
-  let ks := validPrefixes cfg.excludeLast hypLen
-  (ks.map (fun k =>
-      let p := hyp.take k
-      let b := bestDP cfg.costs ref' p
-      cands.filter (fun t => bestDP cfg.costs ref' (p ++ [t]) == b)),
-   ks.map (fun k => bestDP cfg.costs ref' (hyp.take k)))
+def parseT3Int (o : Json) : Except String (Tens3 Int) := do
+  let sh ← getNatList o "shape"
+  let data ← getIntList o "data"
+  match sh with
+  | [a, b, c] => if data.length = a * b * c then pure ⟨a, b, c, data⟩ else throw "3-d data does not fit the shape"
+  | _ => throw "expected a 3-d shape"
 
-def chunkRows {α} (N H : Nat) (rows : List α) : List (List α) :=
-  (List.range H).map (fun k => (rows.drop (k * N)).take N)
+def parseT3Rat (c : Json) (k : String) : Except String (Tens3 Rat) := do
+  let o ← field c k
+  let sh ← getNatList o "shape"
+  let data ← getRatList o "data"
+  match sh with
+  | [a, b, d] => if data.length = a * b * d then pure ⟨a, b, d, data⟩ else throw s!"{k}: data does not fit the shape"
+  | _ => throw s!"{k}: expected a 3-d shape"
+
+def t3J (t : Tens3 Int) : Json :=
+  objJ [("shape", listJ natJ [t.d0, t.d1, t.d2]), ("data", listJ intJ t.data)]
+
+def t2RatJ (t : Tens2 Rat) : Json :=
+  objJ [("shape", listJ natJ [t.d0, t.d1]), ("data", listJ ratToJson t.data)]
+
+/-- Index pair of (prefix `k`, sequence `n`) in the layout of the call. -/
+def ix (bf : Bool) (k n : Nat) : Nat × Nat := if bf then (n, k) else (k, n)
 
 def c03Targets : Handler := fun c => do
   let cfg ← parseCfg c
-  let refs ← getList (jsonToList jsonToInt) c "refs"
-  let hyps ← getList (jsonToList jsonToInt) c "hyps"
-  if refs.length != hyps.length then throw "batch mismatch"
-  let N := refs.length
-  let H := (hyps.headD []).length
-  let Hp := 1 + nIter cfg.excludeLast H
-  let (C, rows) := targetsBatch cfg refs hyps
-  let orc := List.zipWith (oracleCol cfg) refs hyps
-  pure (objJ [
-    ("C", natJ C), ("Hp", natJ Hp),
-    ("rows", listJ (listJ (listJ intJ)) (chunkRows N Hp rows)),
-    ("ref_lens", listJ natJ (refs.map (cutLen cfg.eos cfg.includeEos))),
-    ("hyp_lens", listJ natJ (hyps.map (cutLen cfg.eos cfg.includeEos))),
-    ("oracle", listJ (listJ (listJ intJ)) (orc.map (·.1))),
-    ("best", listJ (listJ ratToJson) (orc.map (·.2)))])
+  let bf ← getBool c "batch_first"
+  let ref ← parseT2 c "ref"
+  let hyp ← parseT2 c "hyp"
+  let N := batchOf bf ref
+  let Hp := 1 + nIter cfg.excludeLast (seqLen bf hyp)
+  let lens := fun (t : Tens2 Int) => (List.range N).map (fun n => cutLen cfg.eos cfg.includeEos (seqOf bf t n))
+  let orc := (List.range N).map (fun n => (List.range Hp).map (fun k => oracleAt cfg bf ref hyp n k))
+  let common : List (String × Json) := [
+    ("Hp", natJ Hp), ("N", natJ N),
+    ("ref_lens", listJ natJ (lens ref)), ("hyp_lens", listJ natJ (lens hyp)),
+    ("oracle", listJ (listJ (listJ intJ)) orc)]
+  match optimalCompletionT cfg bf ref hyp with
+  | .error e => pure (objJ (("error", strJ e) :: common))
+  | .ok out =>
+    let rows := (List.range Hp).map (fun k => (List.range N).map (fun n =>
+      out.vec cfg.padding (ix bf k n).1 (ix bf k n).2))
+    let verdict : List (String × Json) ←
+      match fieldOpt c "impl" with
+      | none => pure []
+      | some j => do
+        let impl ← parseT3Int j
+        if impl.d0 ≠ out.d0 ∨ impl.d1 ≠ out.d1 then pure [("verdict", objJ [("shape_ok", boolJ false)])]
+        else
+          let bad := (List.range Hp).flatMap (fun k => (List.range N).filterMap (fun n =>
+            let r := impl.vec cfg.padding (ix bf k n).1 (ix bf k n).2
+            let agree := rowAgree cfg.padding (out.vec cfg.padding (ix bf k n).1 (ix bf k n).2) r
+            let check := rowCheck cfg.padding ((orc.getD n []).getD k []) r  -- = oracleAt cfg bf ref hyp n k
+            if agree && check then none
+            else some (objJ [("k", natJ k), ("n", natJ n), ("agree", boolJ agree), ("check", boolJ check),
+                             ("row", listJ intJ r)])))
+          pure [("verdict", objJ [("shape_ok", boolJ true), ("bad", Json.arr bad.toArray)])]
+    pure (objJ ([("out", t3J out), ("C", natJ out.d2),
+      ("rows", listJ (listJ (listJ intJ)) rows)] ++ common ++ verdict))
 
 def c03Loss : Handler := fun c => do
   let cfg0 ← parseCfg c
   let ignore ← getInt c "ignore_index"
+  let bf ← getBool c "batch_first"
   -- the loss always calls optimal_completion(padding=ignore_index, exclude_last=True)
   let cfg : Cfg := { cfg0 with padding := ignore, excludeLast := true }
-  let refs ← getList (jsonToList jsonToInt) c "refs"
-  let hyps ← getList (jsonToList jsonToInt) c "hyps"
-  if refs.length != hyps.length then throw "batch mismatch"
-  let N := refs.length
-  let lsm ← getList (jsonToList (jsonToList jsonToRat)) c "lsm"
+  let ref ← parseT2 c "ref"
+  let hyp ← parseT2 c "hyp"
+  let lsm ← parseT3Rat c "lsm"
   let wl ← match fieldOpt c "weight" with
     | none => pure none
     | some v => some <$> jsonToList jsonToRat v
   let w : Int → Rat := match wl with
     | none => fun _ => 1
     | some l => lookup l
-  let (C, rows) := targetsBatch cfg refs hyps
-  let cells := lossCells ignore w N lsm rows
-  let total := (cells.map List.sum).sum
-  let mean := lossMean ignore N cells rows
-  -- spec side: lossSpec over the oracle sets (sorted order is irrelevant for a sum)
-  let orc := List.zipWith (oracleCol cfg) refs hyps
-  let specCells := (List.range lsm.length).map (fun k => (List.range N).map (fun n =>
-    let S := ((orc.getD n ([], [])).1).getD k []
-    lossSpec w (lookup ((lsm.getD k []).getD n [])) S))
-  pure (objJ [
-    ("C", natJ C),
-    ("none", listJ (listJ ratToJson) cells),
-    ("sum", ratToJson total),
-    ("mean", ratToJson mean),
+  let N := batchOf bf ref
+  let H := seqLen bf hyp
+  -- spec side: lossSpec over the ORACLE sets, reduced by the declarative formulas
+  let cellO := fun (k n : Nat) =>
+    lossSpec w (lookup (lsm.vec 0 (ix bf k n).1 (ix bf k n).2)) (oracleAt cfg bf ref hyp n k)
+  let hasO := fun (k n : Nat) => !(oracleAt cfg bf ref hyp n k).isEmpty
+  let specCells := (List.range H).map (fun k => (List.range N).map (fun n => cellO k n))
+  let common : List (String × Json) := [
     ("spec_cells", listJ (listJ ratToJson) specCells),
-    ("oracle", listJ (listJ (listJ intJ)) (orc.map (·.1))),
-    ("hyp_lens", listJ natJ (hyps.map (cutLen cfg.eos cfg.includeEos)))])
+    ("spec_sum", ratToJson (lossSumSpec H N cellO)),
+    ("spec_mean", ratToJson (lossMeanSpec H N cellO hasO)),
+    ("oracle", listJ (listJ (listJ intJ))
+      ((List.range N).map (fun n => (List.range H).map (fun k => oracleAt cfg bf ref hyp n k)))),
+    ("hyp_lens", listJ natJ ((List.range N).map (fun n => cutLen cfg.eos cfg.includeEos (seqOf bf hyp n))))]
+  match hardOCDLossT cfg bf .none w lsm ref hyp, hardOCDLossT cfg bf .sum w lsm ref hyp,
+        hardOCDLossT cfg bf .mean w lsm ref hyp with
+  | .ok (.matrix L), .ok (.scalar s), .ok (.scalar m) =>
+    let cells := (List.range H).map (fun k => (List.range N).map (fun n =>
+      L.get 0 (ix bf k n).1 (ix bf k n).2))
+    pure (objJ ([("none_native", t2RatJ L), ("none", listJ (listJ ratToJson) cells),
+      ("sum", ratToJson s), ("mean", ratToJson m)] ++ common))
+  | .error e, _, _ => pure (objJ (("error", strJ e) :: common))
+  | _, _, _ => throw "model: reductions disagree on success"
 
 def main : IO Unit := Proto.run [("c03.targets", c03Targets), ("c03.loss", c03Loss)]
